@@ -76,3 +76,53 @@ iteritems = Contract('ManyToMany.iteritems', setup=gen_setup, requires=lambda c:
 iteritems.yields = 2
 CONTRACTS[iteritems.qualname] = iteritems
 FUNCS.append('ManyToMany.iteritems')
+
+
+# ---- __getitem__ / get: a fresh copy of the key's value set -----------------------------------------------------------------------
+from contracts.m2m import VSet  # noqa: E402
+
+
+def getitem_ensures(c):
+    v = V(c)
+    r = c.result
+    if not isinstance(r, SRef) or r.cls is not VSet:
+        return [('returns a set', z3.BoolVal(False))]
+    x = z3.Const('xg', Val)
+    rr = z3.Int('rg')
+    key = c.a('key')
+    return [('the key is present', z3.Select(v.ddom, key)),
+            ('a fresh set object holding exactly the values paired with key', z3.And(
+                r.t >= c.old.alloc, z3.ForAll([x], z3.Select(z3.Select(v.sdom, r.t), x) == v.P(key, x)),
+                z3.Select(v.ssize, r.t) == z3.Select(v.ssize, z3.Select(v.dval, key)))),
+            ('the relation is untouched', z3.And(*[z3.ForAll([rr], z3.Implies(rr < c.old.alloc, z3.Select(c.arr(VSet, f), rr) == z3.Select(c.oarr(VSet, f), rr)))
+                                                   for f in ('dom', 'size')]))]
+
+
+def getitem_raises(c):
+    return [('KeyError only for a key without pairs', z3.Not(z3.Select(V(c, c.old).ddom, c.a('key')))),
+            ('state unchanged', z3.And(c.arr(VSet, 'dom') == c.oarr(VSet, 'dom'), c.arr(VSet, 'size') == c.oarr(VSet, 'size')))]
+
+
+getitem = Contract('ManyToMany.__getitem__', setup=setup_key, requires=lambda c: wf(V(c)), ensures=getitem_ensures,
+                   raises={'KeyError': getitem_raises}, modifies=lambda c: [('M2MSet', 'dom'), ('M2MSet', 'size')], facts=set_facts)
+CONTRACTS[getitem.qualname] = getitem
+FUNCS.append('ManyToMany.__getitem__')
+
+
+def get_setup(eng, st, variant=None):
+    return dict(self=SRef(M2M, z3.Int('self')), key=SVal(z3.Const('arg_key', Val)), default=SVal(z3.Const('arg_default', Val)))
+
+
+def get_ensures(c):
+    r = c.result
+    if isinstance(r, SRef):
+        return getitem_ensures(c)
+    return [('absent key: the default is returned and nothing is touched', z3.And(
+        z3.Not(z3.Select(V(c).ddom, c.a('key'))), c.r() == c.a('default'),
+        c.arr(VSet, 'dom') == c.oarr(VSet, 'dom'), c.arr(VSet, 'size') == c.oarr(VSet, 'size')))]
+
+
+get = Contract('ManyToMany.get', setup=get_setup, requires=lambda c: wf(V(c)), ensures=get_ensures,
+               modifies=lambda c: [('M2MSet', 'dom'), ('M2MSet', 'size')], facts=set_facts)
+CONTRACTS[get.qualname] = get
+FUNCS.append('ManyToMany.get')
